@@ -2,10 +2,12 @@ SPECIFICATION Spec
 CONSTANTS
   Members = {"a", "b", "c"}
   Waiters = {"w1"}
-  Kinds = {"ok", "error", "panic"}
+  Kinds = {"ok", "error", "panic", "eof", "canceled"}
   Modes = {"gate", "ctx"}
+  Pres = {"new", "running", "finished"}
   Depth = 10
   Hook = TRUE
+  Sym = TRUE
 INVARIANT Inv
 VIEW view
 ACTION_CONSTRAINT EmitEdge
